@@ -221,6 +221,18 @@ def d4(ck: Check) -> None:
             probs.append(f"successful is `{text(v)}`, expected: no step has an empty list of driver sets")
     ck.ob("D4", iv, st[0] if st else iv.f.node, not probs, "; ".join(probs) if probs else "successful = every step has a driver set",
           key="successful flag")
+    # every override that find_drivers reports is kept: the canonical form is built by order-preserving steps over the list
+    # of a step (sorted / map / list comprehension); a dictionary or set keyed by part of an override (its variable names)
+    # merges the overrides that share that part -- with strategy "all" several valuations of one variable set are reported
+    probs = []
+    for n_ in own_walk(iv.f.node):
+        if isinstance(n_, (ast.DictComp, ast.SetComp)) or (isinstance(n_, ast.Call) and callee_name(n_) in ("set", "frozenset") and n_.args):
+            probs.append(f"line {n_.lineno}: `{text(n_)[:60]}` collects the overrides of a step in a {'dictionary' if isinstance(n_, ast.DictComp) else 'set'}: "
+                         f"overrides that agree on the key (e.g. the same variables with other values) replace each other")
+        if isinstance(n_, (ast.ListComp, ast.GeneratorExp)) and any(g_.ifs for g_ in n_.generators):
+            probs.append(f"line {n_.lineno}: `{text(n_)[:60]}` filters the overrides")
+    ck.ob("D4", iv, iv.f.node, not probs, "; ".join(probs) if probs else "the canonical form keeps every reported override",
+          key="canonical form lossless")
     sc = prog.fm(CTRL, "succession_control")
     res_sc = next((r.value.id for r in own_walk(sc.f.node) if isinstance(r, ast.Return) and isinstance(r.value, ast.Name)), None)
     app = [n for n in own_walk(sc.f.node) if isinstance(n, ast.Call) and isinstance(n.func, ast.Attribute) and n.func.attr == "append"
